@@ -8,8 +8,8 @@ import sys
 from .common import ENV, HARNESS, ROOT, SPEC, ToolError, build_harness, hbin, sh, tlc_cached
 
 MODELS = {
-    "quick": [("all3", "Agg_all3.cfg"), ("core4", "Agg_core4.cfg"), ("uses4", "Agg_uses4.cfg"), ("build4", "Agg_build4.cfg"), ("shape4", "Agg_shape4.cfg"), ("world3", "Agg_world3.cfg"), ("more3", "Agg_more3.cfg")],
-    "thorough": [("all3", "Agg_all3.cfg"), ("core4", "Agg_core4.cfg"), ("uses4", "Agg_uses4.cfg"), ("build4", "Agg_build4.cfg"), ("shape4", "Agg_shape4.cfg"), ("world3", "Agg_world3.cfg"), ("more3", "Agg_more4.cfg"), ("core5", "Agg_core5.cfg")],
+    "quick": [("all3", "Agg_all3.cfg"), ("core4", "Agg_core4.cfg"), ("uses4", "Agg_uses4.cfg"), ("build4", "Agg_build4.cfg"), ("shape4", "Agg_shape4.cfg"), ("world3", "Agg_world3.cfg"), ("more3", "Agg_more3.cfg"), ("shared3", "Agg_shared3.cfg")],
+    "thorough": [("all3", "Agg_all3.cfg"), ("core4", "Agg_core4.cfg"), ("uses4", "Agg_uses4.cfg"), ("build4", "Agg_build4.cfg"), ("shape4", "Agg_shape4.cfg"), ("world3", "Agg_world3.cfg"), ("more3", "Agg_more4.cfg"), ("shared3", "Agg_shared3.cfg"), ("core5", "Agg_core5.cfg")],
 }
 
 
@@ -34,6 +34,9 @@ def artefacts(tier):
     # the greatest common subtype (CMerge) meets every invariant with nothing excused
     tlc_cached("agg-found3", "MC_Agg", "Agg_found3.cfg", workers=4, timeout=900, keep=("NOTHING",), expect_violation="SatisfiesAll")
     tlc_cached("agg-world-ideal", "MC_Agg", "Agg_world_ideal.cfg", workers=4, timeout=900, keep=("NOTHING",))
+    # the remap table as it is: a merge into one name of a shared instance type definition reaches the other (KF29)
+    tlc_cached("agg-found4", "MC_Agg", "Agg_found4.cfg", workers=4, timeout=900, keep=("NOTHING",), expect_violation="MatchesByKeyAll")
+    tlc_cached("agg-shared-ideal", "MC_Agg", "Agg_shared_ideal.cfg", workers=4, timeout=900, keep=("NOTHING",))
     return out, found
 
 
